@@ -182,6 +182,7 @@ func (srv *compressSrv) Decompress(encoding string, data []byte) ([]byte, error)
 
 // Gzip compress data by gzip
 func (srv *compressSrv) Gzip(data []byte) ([]byte, error) {
+	verifCount(EncodingGzip)
 	level := srv.GetLevel(EncodingGzip)
 	return doGzip(data, level)
 }
@@ -193,6 +194,7 @@ func (srv *compressSrv) Gunzip(data []byte) ([]byte, error) {
 
 // Brotli compress data by br
 func (srv *compressSrv) Brotli(data []byte) ([]byte, error) {
+	verifCount(EncodingBrotli)
 	level := srv.GetLevel(EncodingBrotli)
 	return doBrotli(data, level)
 }
